@@ -13,3 +13,9 @@ Proof. vm_compute. reflexivity. Qed.
 From NextestModel Require Import Proofs.DelayProps.
 Lemma delay_cert : dcert pause_table = true.
 Proof. vm_compute. reflexivity. Qed.
+
+(* the block certificate (Model/UnitMonitor.v) for the regenerated table: Stop then Continue restores
+   every pause flag, from every reachable abstract state in the running / terminating loops *)
+From NextestModel Require Import Model.UnitMonitor.
+Lemma pause_block_cert : block_cert pause_table pause_reach = true.
+Proof. vm_compute. reflexivity. Qed.
